@@ -569,8 +569,8 @@ def malformed_from(rng, pools):
     return f"{w()} {b()} {int(rng.integers(0, 9))} {cm()} {int(rng.integers(0, 9))}"
 
 
-NCASES = {"quick": dict(d1=200, d2=250, rand=400, flat=250, malformed=90, spacing=100),
-          "thorough": dict(rand=9000, flat=3000, malformed=2500, spacing=1500)}
+NCASES = {"quick": dict(d1=200, d2=220, rand=350, flat=220, malformed=90, spacing=100),
+          "thorough": dict(rand=7000, flat=3000, malformed=2500, spacing=1500)}
 MAXTOK = {"quick": 40, "thorough": 60}
 
 
@@ -833,8 +833,28 @@ class Judge:
                     except ref.Undefined:
                         pass
                 break
+        # is the selection machinery broken irrespective of the expression?
+        try:
+            if self.mismatch(ref.Parsed("all")) is not None:
+                return f"select:wrong-even-for-all:{outcome_word(r)}"
+        except ref.Undefined:
+            pass
+        # is it one particular spelling of a keyword?  (another documented alias of the same keyword works)
+        if node.kind in ("kw", "implicit", "inlist", "range", "cmp", "regex") and _depth < 3:
+            q = ref.Parsed(p.text(node))
+            if q.status == "ok":
+                for i, tk in enumerate(q.toks):
+                    if tk.kind != "KW":
+                        continue
+                    for alt in ref.token_synonyms(q, i):
+                        q2 = ref.Parsed(ref.rebuild(q, {i: alt}))
+                        try:
+                            if q2.status == "ok" and self.mismatch(q2) is None:
+                                return f"keyword-alias:{tk.text}:{outcome_word(r)}"
+                        except ref.Undefined:
+                            pass
         detail = node.kind
-        if node.kind in ("kw", "implicit", "inlist", "range"):
+        if node.kind == "kw":
             detail += ":" + p.toks[node.tok].value[0]
         elif node.kind == "cmp":
             detail += ":" + ref.CMP_CANON[p.toks[node.ops[0]].text]
